@@ -1127,7 +1127,7 @@ func Retract(vm *VM, t Term, k Cont, env *Env) *Promise {
 			return Unify(vm, t, raw, func(env *Env) *Promise {
 				// The database may have changed since the call. Remove the very clause we unified with, if it's still there.
 				for j := range u.clauses {
-					if id(u.clauses[j].raw) == id(c.raw) {
+					if sameClause(&u.clauses[j], &c) {
 						n := 1
 						for j+n < len(u.clauses) && u.clauses[j+n].raw == nil {
 							n++
@@ -1141,6 +1141,15 @@ func Retract(vm *VM, t Term, k Cont, env *Env) *Promise {
 		})
 	}
 	return Delay(ks...)
+}
+
+// sameClause reports whether a and b are the same stored clause, not merely clauses of the same term: facts of arity 0
+// are all the same atom, what tells them apart is their compiled code.
+func sameClause(a, b *clause) bool {
+	if a.raw == nil || id(a.raw) != id(b.raw) || len(a.bytecode) != len(b.bytecode) {
+		return false
+	}
+	return len(a.bytecode) == 0 || &a.bytecode[0] == &b.bytecode[0]
 }
 
 // Abolish removes the procedure indicated by pi from the database.
